@@ -87,6 +87,9 @@ func init() {
 	reg("vh/vf.Bool", func(e *Exec, a []Value) Value { return e.input(e.strArg(a[0]), SBool) })
 	reg("vh/vf.Choice", func(e *Exec, a []Value) Value {
 		n := e.concretize(a[1].(*Term), 256)
+		if d, ok := e.choices[e.strArg(a[0])]; ok { // the same named choice is one decision per path
+			return e.tt.BV(64, uint64(d))
+		}
 		d := e.decide(n, func(i int) *Term { return e.tt.Bool(true) })
 		e.choices[e.strArg(a[0])] = d
 		return e.tt.BV(64, uint64(d))
@@ -315,4 +318,124 @@ func init() {
 		return SliceVal{}
 	})
 	reg("vh/vf.IsSymbolic", func(e *Exec, a []Value) Value { return e.tt.Bool(true) })
+}
+
+func init() {
+	// legacy (amino JSON) query interface: payloads carry the Go value handed to the encoder
+	reg("vh/vf.LegacyCdc", func(e *Exec, a []Value) Value { return PtrVal{Root: &Cell{V: ModelVal{Kind: "amino"}}} })
+	jsonOf := func(e *Exec, v Value) Value {
+		if iv, ok := v.(IfaceVal); ok {
+			v = iv.V
+		}
+		if p, ok := v.(PtrVal); ok && p.Root != nil {
+			v = p.load()
+		}
+		r := e.mkByteSlice(e.constStr("<amino-json>").B)
+		r.Att = JSONAtt{V: e.normalise(copyValue(v))}
+		return r
+	}
+	fromJSON := func(e *Exec, bz Value, target Value) Value {
+		sv := bz.(SliceVal)
+		ja, ok := sv.Att.(JSONAtt)
+		if !ok {
+			return e.errVal("amino: cannot decode")
+		}
+		target.(IfaceVal).V.(PtrVal).store(copyValue(ja.V))
+		return IfaceVal{}
+	}
+	reg("vh/vf.AminoJSON", func(e *Exec, a []Value) Value { return jsonOf(e, a[0]) })
+	reg("vh/vf.FromAminoJSON", func(e *Exec, a []Value) Value { return fromJSON(e, a[0], a[1]) })
+	reg("(*github.com/cosmos/cosmos-sdk/codec.LegacyAmino).UnmarshalJSON", func(e *Exec, a []Value) Value { return fromJSON(e, a[1], a[2]) })
+	reg("github.com/cosmos/cosmos-sdk/codec.MarshalJSONIndent", func(e *Exec, a []Value) Value {
+		return TupleVal{jsonOf(e, a[1]), IfaceVal{}}
+	})
+}
+
+func (e *Exec) deepEq(a, b Value) *Term {
+	switch x := a.(type) {
+	case *Term:
+		y, ok := b.(*Term)
+		if !ok || x.Sort != y.Sort {
+			return e.tt.Bool(false)
+		}
+		return e.tt.Eq(x, y)
+	case StrVal:
+		y, ok := b.(StrVal)
+		if !ok {
+			return e.tt.Bool(false)
+		}
+		return e.strEq(x.B, y.B)
+	case *BigVal:
+		y, ok := b.(*BigVal)
+		if !ok || x.Nil != y.Nil {
+			return e.tt.Bool(false)
+		}
+		if x.Nil {
+			return e.tt.Bool(true)
+		}
+		return e.tt.Eq(x.T, y.T)
+	case TimeVal:
+		y, ok := b.(TimeVal)
+		if !ok {
+			return e.tt.Bool(false)
+		}
+		return e.tt.Eq(x.NS, y.NS)
+	case *StructVal:
+		y, ok := b.(*StructVal)
+		if !ok || len(x.Fields) != len(y.Fields) {
+			return e.tt.Bool(false)
+		}
+		r := e.tt.Bool(true)
+		for i := range x.Fields {
+			r = e.tt.And(r, e.deepEq(x.Fields[i], y.Fields[i]))
+		}
+		return r
+	case *ArrayVal:
+		y, ok := b.(*ArrayVal)
+		if !ok || len(x.Elems) != len(y.Elems) {
+			return e.tt.Bool(false)
+		}
+		r := e.tt.Bool(true)
+		for i := range x.Elems {
+			r = e.tt.And(r, e.deepEq(x.Elems[i], y.Elems[i]))
+		}
+		return r
+	case SliceVal:
+		y, ok := b.(SliceVal)
+		if !ok {
+			return e.tt.Bool(false)
+		}
+		if (x.Blob != nil) != (y.Blob != nil) {
+			return e.tt.Bool(false)
+		}
+		if x.Blob != nil {
+			return e.deepEq(e.normalise(copyValue(x.Blob)), e.normalise(copyValue(y.Blob)))
+		}
+		if x.Len != y.Len {
+			return e.tt.Bool(false)
+		}
+		r := e.tt.Bool(true)
+		xe, ye := x.elems(), y.elems()
+		for i := range xe {
+			r = e.tt.And(r, e.deepEq(xe[i], ye[i]))
+		}
+		return r
+	case PtrVal:
+		y, ok := b.(PtrVal)
+		if !ok || (x.Root == nil) != (y.Root == nil) {
+			return e.tt.Bool(false)
+		}
+		if x.Root == nil {
+			return e.tt.Bool(true)
+		}
+		return e.deepEq(x.loadRef(), y.loadRef())
+	case nil:
+		return e.tt.Bool(b == nil)
+	}
+	panic(abort{"deepEq on unsupported value"})
+}
+
+func init() {
+	// SameBytes: equality of stored values (codec blobs compare by content)
+	reg("vh/vf.SameBytes", func(e *Exec, a []Value) Value { return e.deepEq(a[0], a[1]) })
 }
